@@ -7,6 +7,13 @@
 //	close        clients connect (several per id, one with a rejected auth), relay some bytes, Close()
 //	serverclose  the server is closed under connected clients
 //	kick         POST /kick, the next relayed chunk is refused, the server drops the connection
+//	kickudpup / kickudpdown / kicktcpup / kicktcpdown
+//	             the kicked user's NEXT traffic report is, respectively, an upstream UDP datagram
+//	             (udpIOImpl.ReceiveMessage), a downstream UDP reply (udpIOImpl.SendMessage), a TCP
+//	             chunk client→target, a TCP chunk target→client (both via tcpTrafficLogger): it is
+//	             refused once and not counted, the server closes the QUIC connection (further TCP
+//	             and UDP fail), /online drops the user and stays so, a reconnect is accepted and
+//	             reports normally
 //	dualauth     ONE QUIC connection (raw HTTP/3 client) sends TWO auth requests at the same time
 //	             while the authenticator blocks, then a third afterwards: the connection must
 //	             be listed once, and not at all after it is closed
@@ -51,7 +58,7 @@ func init() { vh.Register("statslive", func() vh.Component { return &statsLive{}
 type statsLive struct{}
 
 func (c *statsLive) Gen(r *vh.RNG, n int, emit func(op string, tags ...string)) {
-	modes := []string{"dualauth", "close", "serverclose", "kick", "vanish"}
+	modes := []string{"dualauth", "kickudpup", "kickudpdown", "kicktcpup", "kicktcpdown", "close", "serverclose", "kick", "vanish"}
 	for i := 0; i < n; i++ {
 		m := modes[i%len(modes)]
 		emit(fmt.Sprintf("live %s %d %d", m, r.U64()%100000, r.Range(2, 6)), m)
@@ -213,6 +220,288 @@ func (e *liveEnv) expectCensus(what string, want map[string]int64, d time.Durati
 		time.Sleep(3 * time.Millisecond)
 	}
 	e.problem("%s: /online lists %v, connected authenticated clients are %v (after waiting %v)", what, got, want, d)
+}
+
+// pushTCP is a TCP target the harness controls: it echoes, and can push unsolicited bytes to
+// every connection it has accepted (the remote speaking first).
+type pushTCP struct {
+	l     net.Listener
+	mu    sync.Mutex
+	conns []net.Conn
+}
+
+func newPushTCP() (*pushTCP, error) {
+	l, err := net.Listen("tcp", "127.0.0.1:0")
+	if err != nil {
+		return nil, err
+	}
+	p := &pushTCP{l: l}
+	go func() {
+		for {
+			cn, err := l.Accept()
+			if err != nil {
+				return
+			}
+			p.mu.Lock()
+			p.conns = append(p.conns, cn)
+			p.mu.Unlock()
+			go func() { _, _ = io.Copy(cn, cn) }()
+		}
+	}()
+	return p, nil
+}
+
+func (p *pushTCP) push(b []byte) {
+	p.mu.Lock()
+	defer p.mu.Unlock()
+	for _, c := range p.conns {
+		_, _ = c.Write(b)
+	}
+}
+
+func (p *pushTCP) close() {
+	_ = p.l.Close()
+	p.mu.Lock()
+	for _, c := range p.conns {
+		_ = c.Close()
+	}
+	p.mu.Unlock()
+}
+
+// pushUDP is a UDP remote the harness controls: it echoes, remembers who talked to it last and
+// can send that peer an unsolicited datagram.
+type pushUDP struct {
+	c    *net.UDPConn
+	mu   sync.Mutex
+	peer net.Addr
+}
+
+func newPushUDP() (*pushUDP, error) {
+	c, err := net.ListenUDP("udp", &net.UDPAddr{IP: net.IPv4(127, 0, 0, 1)})
+	if err != nil {
+		return nil, err
+	}
+	p := &pushUDP{c: c}
+	go func() {
+		buf := make([]byte, 65536)
+		for {
+			n, a, err := c.ReadFrom(buf)
+			if err != nil {
+				return
+			}
+			p.mu.Lock()
+			p.peer = a
+			p.mu.Unlock()
+			_, _ = c.WriteTo(buf[:n], a)
+		}
+	}()
+	return p, nil
+}
+
+func (p *pushUDP) push(b []byte) {
+	p.mu.Lock()
+	a := p.peer
+	p.mu.Unlock()
+	if a != nil {
+		_, _ = p.c.WriteTo(b, a)
+	}
+}
+
+func (e *liveEnv) traffic(id string) [2]uint64 {
+	rep := doRecorder(e.stats, "GET", &url.URL{Path: "/traffic"}, nil, nil)
+	m, err := parseTraffic(rep.body)
+	if rep.status != 200 || err != nil {
+		e.problem("/traffic failed: %d %v", rep.status, err)
+		return [2]uint64{}
+	}
+	return m[id]
+}
+
+func udpRoundTrip(u client.HyUDPConn, addr string, n int, d time.Duration) error {
+	if err := u.Send(make([]byte, n), addr); err != nil {
+		return err
+	}
+	got := make(chan error, 1)
+	go func() {
+		b, _, err := u.Receive()
+		if err == nil && len(b) != n {
+			err = fmt.Errorf("echo of %d bytes came back as %d", n, len(b))
+		}
+		got <- err
+	}()
+	select {
+	case err := <-got:
+		return err
+	case <-time.After(d):
+		return fmt.Errorf("no UDP echo within %v", d)
+	}
+}
+
+// kickVariant: one user ("victor") with ONE connection and quiet flows, so that the harness
+// decides what his next traffic report after POST /kick is.
+func (e *liveEnv) kickVariant(mode string, want map[string]int64) {
+	const victim = "victor"
+	tcpT, err := newPushTCP()
+	if err != nil {
+		e.problem("harness: %v", err)
+		return
+	}
+	defer tcpT.close()
+	udpT, err := newPushUDP()
+	if err != nil {
+		e.problem("harness: %v", err)
+		return
+	}
+	defer udpT.c.Close()
+	cl, err := e.dial("ok:"+victim, nil, 0)
+	if err != nil {
+		e.problem("victor could not connect: %v", err)
+		return
+	}
+	defer cl.Close()
+	want[victim] = 1
+	e.expectCensus("after victor connected", want, 3*time.Second)
+
+	// establish the flow and let its reports settle (a completed echo = both directions logged)
+	var tcn net.Conn
+	var ucn client.HyUDPConn
+	udpAddr := udpT.c.LocalAddr().String()
+	switch mode {
+	case "kicktcpup", "kicktcpdown":
+		tcn, err = cl.TCP(tcpT.l.Addr().String())
+		if err == nil {
+			buf := make([]byte, 300)
+			if _, err = tcn.Write(buf); err == nil {
+				_ = tcn.SetReadDeadline(time.Now().Add(3 * time.Second))
+				_, err = io.ReadFull(tcn, buf)
+				_ = tcn.SetReadDeadline(time.Time{})
+			}
+		}
+	default:
+		ucn, err = cl.UDP()
+		if err == nil {
+			err = udpRoundTrip(ucn, udpAddr, 300, 3*time.Second)
+		}
+	}
+	if err != nil {
+		e.problem("victor's warm-up flow failed: %v", err)
+		return
+	}
+	before := e.traffic(victim)
+	if before != [2]uint64{300, 300} {
+		e.problem("warm-up echo of 300 bytes accounted as tx=%d rx=%d", before[0], before[1])
+	}
+
+	jb, _ := json.Marshal([]string{victim})
+	if rep := doRecorder(e.stats, "POST", &url.URL{Path: "/kick"}, nil, jb); rep.status != 200 {
+		e.problem("kick answered %d", rep.status)
+	}
+	// the connection is closed when a new stream can no longer be opened on it
+	closed := func() bool {
+		cn, err := cl.TCP(e.echo.Addr().String())
+		if err != nil {
+			return true
+		}
+		_ = cn.Close()
+		return false
+	}
+	// victor's next report, of the chosen kind (datagrams may get lost: repeat until it shows)
+	trigger := func() {
+		switch mode {
+		case "kickudpup":
+			_ = ucn.Send(make([]byte, 500), udpAddr)
+		case "kickudpdown":
+			udpT.push(make([]byte, 500))
+		case "kicktcpup":
+			_, _ = tcn.Write(make([]byte, 500))
+		case "kicktcpdown":
+			tcpT.push(make([]byte, 500))
+		}
+	}
+	trigger()
+	gone := false
+	for t := time.Now().Add(3 * time.Second); time.Now().Before(t); {
+		time.Sleep(60 * time.Millisecond)
+		if closed() {
+			gone = true
+			break
+		}
+		if strings.HasPrefix(mode, "kickudp") {
+			trigger()
+		}
+	}
+	if !gone {
+		e.problem("%s: victor was kicked and sent his next report, but 3 s later his connection is still open (new streams are accepted)", mode)
+	}
+	// the refused report is not counted, and it was the only one
+	if after := e.traffic(victim); after != before {
+		e.problem("%s: the refused report changed victor's counters from %d/%d to %d/%d", mode, before[0], before[1], after[0], after[1])
+	}
+	if gone {
+		// (a datagram send on a closed QUIC connection is silently dropped by quic-go, so "UDP fails"
+		// is observed as: no new UDP session can be opened, and the open one reports EOF)
+		if _, err := cl.UDP(); err == nil {
+			e.problem("%s: a UDP session still opens on the kicked connection", mode)
+		}
+		if ucn != nil {
+			eof := make(chan error, 1)
+			go func() {
+				for {
+					if _, _, err := ucn.Receive(); err != nil {
+						eof <- err
+						return
+					}
+				}
+			}()
+			select {
+			case <-eof:
+			case <-time.After(2 * time.Second):
+				e.problem("%s: victor's UDP session is still readable 2 s after his connection was closed", mode)
+			}
+		}
+		if _, err := cl.TCP(e.echo.Addr().String()); err == nil {
+			e.problem("%s: TCP still opens on the kicked connection", mode)
+		}
+	}
+	delete(want, victim)
+	e.expectCensus(mode+": after victor was kicked", want, 3*time.Second)
+	e.holdCensus(mode+": after victor was kicked", want, 150*time.Millisecond)
+
+	// the kick is spent: a reconnect is accepted and reports normally
+	cl2, err := e.dial("ok:"+victim, nil, 0)
+	if err != nil {
+		e.problem("%s: victor could not reconnect after the kick: %v", mode, err)
+		return
+	}
+	defer cl2.Close()
+	want[victim] = 1
+	e.expectCensus(mode+": after victor reconnected", want, 3*time.Second)
+	cn, err := cl2.TCP(e.echo.Addr().String())
+	if err == nil {
+		buf := make([]byte, 1000)
+		if _, err = cn.Write(buf); err == nil {
+			_ = cn.SetReadDeadline(time.Now().Add(3 * time.Second))
+			_, err = io.ReadFull(cn, buf)
+		}
+		_ = cn.Close()
+	}
+	if err != nil {
+		e.problem("%s: relay on the new connection failed: %v", mode, err)
+	}
+	u2, err := cl2.UDP()
+	if err == nil {
+		err = udpRoundTrip(u2, udpAddr, 200, 3*time.Second)
+	}
+	if err != nil {
+		e.problem("%s: UDP on the new connection failed: %v", mode, err)
+	}
+	if after := e.traffic(victim); after != [2]uint64{before[0] + 1200, before[1] + 1200} {
+		e.problem("%s: after reconnecting and echoing 1000 (TCP) + 200 (UDP) bytes the counters are %d/%d, expected %d/%d", mode, after[0], after[1], before[0]+1200, before[1]+1200)
+	}
+	e.holdCensus(mode+": while victor stays reconnected", want, 100*time.Millisecond)
+	_ = cl2.Close()
+	delete(want, victim)
+	e.expectCensus(mode+": after victor left", want, 3*time.Second)
 }
 
 // holdCensus: the listing must STAY equal to want for d.
@@ -452,6 +741,12 @@ func (c *statsLive) Run(op string) vh.Result {
 		for _, cl := range clients {
 			_ = cl.Close()
 		}
+	case "kickudpup", "kickudpdown", "kicktcpup", "kicktcpdown":
+		env.kickVariant(mode, want)
+		for _, cl := range clients {
+			_ = cl.Close()
+		}
+		env.expectCensus("after everybody closed", map[string]int64{}, 3*time.Second)
 	case "kick":
 		victim := owner[0]
 		jb, _ := json.Marshal([]string{victim})
